@@ -34,14 +34,14 @@ BASIS_CAP = 3_000_000
 def _dims(d):
     if d == 2:
         return {
-            "ext": [[4, 4], [3, 5]],
+            "ext": [[4, 4], [3, 5], [1, 4]],
             "batch": [1, 2],
             "chans": [[1, 1], [2, 3]],
             "kk": [[1, 1], [0, 0], [0, 1], [1, 0], [2, 1], [1, 2], [2, 0], [0, 2], [2, 2]],
             "fext": [[3, 3], [2, 2], [1, 3], [4, 4], [1, 1]],
             "pad": [None, "TORUS", "SAME", "VALID", 1, [[1, 2], [0, 1]]],
             "torus": [[True, True], [False, False], [True, False], [False, True]],
-            "stride": [1, 2, [1, 2]],
+            "stride": [1, 2, [1, 2], 3],
             "rhs": [1, 2, [1, 2], 3, [3, 1]],
             "lhs": [None, [2, 2], [2, 1]],
         }
